@@ -1338,13 +1338,12 @@ func (f *Frame) floatOp(name, x, y Term) Term {
 }
 
 func (f *Frame) execIndexAddr(v *ssa.IndexAddr, st *State) {
-	vc := f.vc
 	i := f.val(v.Index)
 	switch u := v.X.Type().Underlying().(type) {
 	case *types.Slice:
 		s := f.val(v.X)
 		f.mustHold(st, fmt.Sprintf("(and (<= 0 %s) (< %s (Slice_len %s)))", i, i, s), "index")
-		f.locs[v] = &Loc{kind: locElem, sref: sref(s), idx: vc.define("idx", "Int", addT(soff(s), i)), rootT: u.Elem()}
+		f.locs[v] = &Loc{kind: locElem, sref: sref(s), idx: addT(soff(s), i), rootT: u.Elem()}
 	case *types.Pointer:
 		at := u.Elem().Underlying().(*types.Array)
 		f.mustHold(st, fmt.Sprintf("(and (<= 0 %s) (< %s %d))", i, i, at.Len()), "index")
